@@ -870,13 +870,15 @@ def generate(ck):
                         cases.append(mkcase(ps, world=2, caching=True, pre=(2,), inv=inv, group="one-hook-raises"))
 
     # (3a) a reply-side hook raises, every class x every way a real send can be answered
-    #      (a Reply, a TransportError of the transport with each status and body)
+    #      (a Reply, a TransportError of the transport with each status and body) and the same
+    #      replies handed to RequestContext.process_reply
     direct = [i for i in invs if i["via"] == "Direct" and not i["crash"]]
+    handed = [i for i in invs if i["via"] == "NoSend" and i["process"]]
     duo = [full_plugin("msg"), full_plugin("msg"), full_plugin("msg")]
     for name in ("received", "parsed", "unmarshalled"):
         for cls in XCLS:
             ps = with_raise(duo, 1, name, cls, edits=False)
-            chosen = direct if thorough else rng.sample(direct, 4)
+            chosen = direct + handed if thorough else rng.sample(direct, 4) + rng.sample(handed, 2)
             for inv in chosen:
                 cases.append(mkcase(ps, inv=inv, group="reply-hook-raises"))
 
